@@ -186,4 +186,39 @@ theorem start_chs_decodes (offset heads sectors : Nat) (hs : 1 ≤ sectors ∧ s
   rw [e0]
   omega
 
+/-- **GPT geometry**, for every image size and disk geometry: the backup header is the last 512-byte sector of the
+padded image; the backup partition array (32 sectors) lies directly in front of it, behind the last usable LBA, and
+starts at or after the end of the ISO data; the partition that covers the ISO ends at or before the last usable LBA;
+the primary partition array ends where the usable area begins. -/
+theorem gpt_geometry (isoSize heads sectors extent count : Nat) (mac : Bool)
+    (hc : 0 < heads * sectors * 512) (hiso : isoSize % 512 = 0) (hpos : 512 ≤ isoSize) :
+    let g := gptGeo isoSize heads sectors extent count mac
+    let total := isoSize + (calcCc isoSize heads sectors true).2
+    total % 512 = 0 ∧ (g.backupLba + 1) * 512 = total ∧ g.backupEntries + 32 = g.backupLba ∧
+    g.lastUsable < g.backupEntries ∧ isoSize ≤ g.backupEntries * 512 ∧ g.isoLast ≤ g.lastUsable ∧
+    g.primaryEntries + 32 = g.firstUsable ∧ g.primaryLba = 1 := by
+  have hs := calc_cc_spec isoSize heads sectors true hc
+  simp only at hs
+  obtain ⟨hmod, hmin, hne, hefi⟩ := hs
+  have hpad := (hefi trivial).1
+  simp only [gptGeo]
+  generalize (calcCc isoSize heads sectors true).2 = pad at *
+  obtain ⟨q, hq⟩ := Nat.dvd_of_mod_eq_zero hmod
+  have htot : isoSize + pad = 512 * (heads * sectors * q) := by
+    rw [hq]; simp only [Nat.mul_comm, Nat.mul_assoc, Nat.mul_left_comm]
+  generalize heads * sectors * q = m at htot
+  unfold gptBackup at hpad
+  clear hq hmod hmin hne hefi hc
+  have h1 : (isoSize + pad) / 512 = m := by omega
+  have h2 : (isoSize + pad - 512) / 512 = m - 1 := by omega
+  have h3 : isoSize / 512 + 33 ≤ m := by omega
+  rw [h1, h2]
+  cases mac <;> simp only [if_true, if_false, Bool.false_eq_true] <;>
+    refine ⟨by omega, by omega, by omega, by omega, by omega, by omega, by simp, trivial⟩
+
+/-- non-vacuity: a 1 MiB image with the default geometry (64 heads, 32 sectors) -/
+example : gptGeo 1048576 64 32 30 8 false =
+    { primaryLba := 1, backupLba := 4095, firstUsable := 34, lastUsable := 4062, primaryEntries := 2, backupEntries := 4063,
+      isoFirst := 0, isoLast := 2047, efiFirst := 120, efiLast := 127 } := by decide +kernel
+
 end Pycdlib.Hybrid
